@@ -198,6 +198,14 @@ func (dec *Decimal) SetString(s string) error {
 		right = strings.TrimRight(split[1], "0")
 	}
 
+	// A sign is only valid in front of the number, the fraction must
+	// consist of digits.
+	for _, r := range right {
+		if r < '0' || r > '9' {
+			return fmt.Errorf("failed to parse number %s", s)
+		}
+	}
+
 	if len(right) > dec.Scale {
 		return fmt.Errorf("number %s has more than %d fractional digits", s, dec.Scale)
 	}
